@@ -199,8 +199,18 @@ Fixpoint ordered (prev : Q) (l : list (list qpt * Q * Q)) : bool :=
   match l with [] => true | (_, s, u) :: r => Qle_bool prev s && Qle_bool s u && ordered u r end.
 
 (** flags: 1 PROP a piece is not a sub-curve of the input, 2 PROP pieces out of order / overlapping,
-    4 PROP number of pieces differs from the pattern, 8 PROP a piece length differs from the pattern by more than the
-    enclosure +- 1 % of the path length, 32 PROP panic.  Output [flags; #pieces; 0] *)
+    4 PROP number of pieces differs from the pattern, 8 PROP a cut is not at the arc length the pattern prescribes: the enclosure
+    of the arc length of the input from its start to the certified parameter of the cut, widened by 1 % of the path length (the
+    accuracy the code documents for its arc-length inversion), does not contain the prescribed position; 32 PROP panic.
+    Output [flags; #pieces; worst distance of a prescribed cut position from the enclosure, in 1/1000 of the path length] *)
+(** the certified parameter is rounded down to the 2^-20 grid first (keeps the rationals small); the arc length between the two
+    parameters is at most 2^-20 * max|B'| <= 2^-20 * 3 * (length of the control polygon), which widens the enclosure *)
+Definition round20 (s : Q) : Q := Qfloor (s * 1048576) # 1048576.
+Definition cut_dev (c : k3case) (s a : Q) : Q :=
+  let pre := map qred_pt (sub_ctrl (e_in c) 0 (round20 s)) in
+  let rnd := (3 # 1048576) * polyline_hi 30 (e_in c) in
+  let lo := len_lo 30 8 pre - rnd in let hi := len_hi 30 8 pre + rnd in
+  if Qle_bool a lo then lo - a else if Qle_bool hi a then a - hi else 0.
 Definition judge_k3 (c : k3case) : list Z :=
   if e_panic c then [32%Z; 0%Z; 0%Z] else
   let L := e_len c in
@@ -209,11 +219,12 @@ Definition judge_k3 (c : k3case) : list Z :=
   let cert := forallb (fun x => let '(ctrl, s, u) := x in sub_ok (e_slack c) (e_in c) ctrl s u) (e_pieces c) in
   let ord := ordered 0 (e_pieces c) in
   let cnt := (length spec =? length (e_pieces c))%nat in
-  let lens := forallb (fun xy => let '((ctrl, _, _), (a, b)) := xy in
-                         Qle_bool (len_lo 40 16 ctrl - tol) (b - a) && Qle_bool (b - a) (len_hi 40 16 ctrl + tol))
-                      (combine (e_pieces c) spec) in
-  [ (bit (negb cert) 1 + bit (negb ord) 2 + bit (negb cnt) 4 + bit (cnt && negb lens) 8)%Z;
-    Z.of_nat (length (e_pieces c)); 0%Z ].
+  let devs := flat_map (fun xy => let '((_, s, u), (a, b)) := xy in [cut_dev c s a; cut_dev c u b]) (combine (e_pieces c) spec) in
+  let worst := fold_right (fun d m => if Qle_bool m d then d else m) 0 devs in
+  let cuts := Qle_bool worst tol in
+  [ (bit (negb cert) 1 + bit (negb ord) 2 + bit (negb cnt) 4 + bit (cnt && cert && negb cuts) 8)%Z;
+    Z.of_nat (length (e_pieces c));
+    (if Qle_bool L 0 then 0 else Qfloor (worst * 1000 / L))%Z ].
 
 (* ============================================================================================== *)
 Inductive case05 := K1 (h : Q) (c : k1case) | K2 (c : k2case) | K3 (c : k3case).
